@@ -509,3 +509,20 @@ package server
 //@ assert at call OnNext#0: old(lc.status) == 3 && old(lc.termOptions.NotificationsEnabled) && req.StartOffsetExclusive == nil && t != nil && t.Shard == lc.shardId && t.Offset == as(old(lc.quorumAckTracker), *quorumAckTracker).commitOffset.v && len(t.Notifications) == 0
 //@ assert at call DoWithLabels#0: old(lc.status) == 3 && old(lc.termOptions.NotificationsEnabled) && (req.StartOffsetExclusive != nil ==> offsetExclusive == *req.StartOffsetExclusive) && (req.StartOffsetExclusive == nil ==> offsetExclusive == as(old(lc.quorumAckTracker), *quorumAckTracker).commitOffset.v)
 //@ modifies *
+
+// The dispatcher of one subscriber: every read of stored batches starts right after the
+// last batch delivered on this stream (or after the position the stream started from),
+// the batches read are delivered in the order read, each strictly after the previous
+// one — nothing is skipped and nothing is delivered twice.
+//
+//@ func leaderController.GetNotifications$1
+//@ property C17
+//@ requires lc != nil && lc.db != nil && lc.log != nil && lc.ctx != nil && ctx != nil && cb != nil
+//@ requires ghost(lastOff, cb) == offsetExclusive && offsetExclusive < 4611686018427387904
+//@ assert at call ReadNextNotifications#0: startOffset == ghost(lastOff, cb) + 1
+//@ assert at call OnNext#0: t == notifications[idx] && t.Offset > ghost(lastOff, cb)
+//@ assume at call OnNext#0: result == nil ==> ghost(lastOff, cb) == notification.Offset because "meaning of the ghost: the offset of the last batch handed to this stream"
+//@ loop 0 invariant offset == ghost(lastOff, cb) && offset < 4611686018427387904
+//@ loop 1 invariant offset == ghost(lastOff, cb) && offset < 4611686018427387904 && forall i int :: rangeindex < i && i < len(notifications) ==> notifications[i] != nil && notifications[i].Offset > offset && notifications[i].Offset < 4611686018427387904
+//@ loop 1 invariant forall i int, j int :: 0 <= i && i < j && j < len(notifications) ==> notifications[i].Offset < notifications[j].Offset
+//@ modifies *
